@@ -358,6 +358,14 @@ theorem devicecount_literal_eq_variable_partial (ds : List Char) (h : CanonicalD
 theorem devicecount_all : decodeDeviceCount "all" = some (-1) ∧ decodeDeviceCount "ALL" = some (-1) ∧ decodeDeviceCount "aLl" = some (-1) := by
   decide
 
+/-- round 5 (repair 3b56c47 `NanoCPUs reads a number given as a string like YAML reads the literal`; before it: findings
+    `typed:yaml-number-syntax:{leading-zero,0x}:nanocpus`): the self-decoding `NanoCPUs` reads a string exactly as the
+    `toFloat` caster reads it — `parseYAMLNumber` of types/cpus.go and `parseYAMLFloat(_, 64)` of loader/interpolate.go
+    are the same reading (both pinned by `modelled_functions_are_source`, both compared with the reference reading by
+    the `c08casters` correspondence) — so `deploy.resources.*.cpus` through a variable is what a cast row would give -/
+theorem nanocpus_reads_like_toFloat (fp : FloatParser) (s : String) :
+    (decodeNanoCPUs fp s).map Val.float = Caster.toFloat.apply fp s := rfl
+
 /-! ## non-vacuity -/
 
 private def cfg0 : Cfg :=
